@@ -18,11 +18,13 @@ from .c03_pit import _outcome_label, _verdict
 PROPERTY_ID = 'C06'
 RULE = ('(a) framing: sequences of 0..6 TLV packets (types in 1/3/5-byte form, lengths in {0,1,252,253,65535,65536,<=70000}) fed to a '
         'concrete StreamFace through a real asyncio.StreamReader on the virtual loop, cut into chunks at drawn positions, plus EVERY '
-        'single cut position and every (c, c+1) pair of streams <= 600 B, optionally ending in a truncated packet then EOF; oracle: '
+        'single cut position and every (c, c+1) pair of streams <= 600 B, optionally ending in a truncated packet then EOF, the EOF fed either after the loop ran or in the SAME loop turn as the last '
+        'bytes; oracle: '
         'delivered == packets, once, in order, byte-exact, right type; run() returns after EOF, nothing partial delivered. '
         '(b) robustness: random bytes and byte/TLV-structural mutations of valid Interests, Data, Nacks, tokened / header-laden / '
         'fragment-less / fragmented LpPackets and unknown outer types, delivered to appv2, legacy app (as a stream face frames them, '
-        'and raw) and to the UdpFace protocol object, in states with 0..3 pending Interests and 0..3 handlers under /keep; oracle: '
+        'and raw) and to the UdpFace protocol object, in states with 0..3 pending Interests and 0..3 handlers under /keep, handed over as bytes / memoryview / bytearray / writable '
+        'memoryview, a quarter of the cases with the ndn loggers at DEBUG; oracle: '
         'reception returns normally, no unhandled loop error, every /keep Interest and handler still works afterwards. '
         'Non-trivial (a) = a cut inside a type/length number; (b) = outer TL self-consistent or a structural mutation. '
         'Distinct key = (sub-check, front-end, input family, deepest stage / cut class).')
